@@ -1,6 +1,7 @@
 mod posgen;
 mod proj;
 mod query;
+mod session;
 
 use rand::rngs::StdRng;
 use rand::SeedableRng;
@@ -123,8 +124,16 @@ fn regen(prop: &str, input: &Path, out: &Path) {
             sink.emit(&query_one(&ctx, &b, prop));
         }
         _ => {
-            eprintln!("regen: unsupported replay payload");
-            std::process::exit(2);
+            if let Some(sess) = rep["session"].as_array() {
+                sink.begin(&json!({"prop": prop, "session": "replay"}));
+                for e in session::reexec(sess) {
+                    sink.emit(&e);
+                }
+                // stateless extras are re-emitted as recorded inputs
+            } else {
+                eprintln!("regen: unsupported replay payload");
+                std::process::exit(2);
+            }
         }
     }
     sink.finish();
@@ -160,6 +169,12 @@ fn main() {
             let cap: usize = args.get(6).map(|s| s.parse().unwrap()).unwrap_or(500);
             match prop.as_str() {
                 "C01" | "C03" | "C06" | "C07" | "C16" => gen_queries(prop, n, seed, &out, cap),
+                "C04" | "C05" => {
+                    let mut rng = StdRng::seed_from_u64(seed);
+                    let mut sink = Sink::new(&out, cap);
+                    session::gen_sessions(prop, n, &mut rng, &mut sink);
+                    println!("GEN prop={} events={}", prop, sink.finish());
+                }
                 _ => {
                     eprintln!("unknown property {prop}");
                     std::process::exit(2);
